@@ -118,6 +118,15 @@ def do_replay(pid, path):
     mod = load_module(pid)
     with open(path) as fh:
         doc = json.load(fh)
+    if doc.get("needs_full_run"):
+        # history-dependent violation (wrong only after other evaluations made by the same process): the replay
+        # is a complete run of the check, looking for the same key
+        keys = _full_run_keys(pid, doc.get("tier") or "quick")
+        if doc.get("key") in keys:
+            print(f"REPRODUCED property={pid} key={doc['key']} (by a complete run)")
+            return 1
+        print(f"not reproduced by a complete run: {doc.get('key')}")
+        return 0
     case = core.dec(doc["case"])
     found = mod.replay(case)
     keys = [k for k, _ in found]
@@ -140,6 +149,19 @@ def _confirm(pid, path):
         cwd=VERIF, env=env, capture_output=True, text=True, timeout=1800,
     )
     return r.returncode, r.stdout[-2000:] + r.stderr[-2000:]
+
+
+def _full_run_keys(pid, tier):
+    env = dict(os.environ, VERIF_CONFIRM="1", VERIF_EVIDENCE_DIR="/tmp/verif-scratch-evidence")
+    r = subprocess.run(
+        [sys.executable, "-m", "mc.run", pid, "--tier", tier, "--no-confirm"],
+        cwd=VERIF, env=env, capture_output=True, text=True, timeout=6 * 3600,
+    )
+    keys = set()
+    for line in r.stdout.splitlines():
+        if line.startswith("VIOLATION ") and " key=" in line:
+            keys.add(line.split(" key=", 1)[1].split(" :: ", 1)[0])
+    return keys
 
 
 def main(argv=None):
@@ -197,6 +219,24 @@ def main(argv=None):
             with concurrent.futures.ThreadPoolExecutor(8) as ex:
                 res = list(ex.map(lambda it: _confirm(pid, it[2]), new))
             bad = [(it, r) for it, r in zip(new, res) if r[0] != 1]
+            if bad and not os.environ.get("VERIF_CONFIRM"):
+                # second chance: a value that is wrong only after OTHER evaluations of the same process (state
+                # leaking between calls) cannot be reproduced from one case; it is accepted when a second, independent
+                # complete run of the check in a fresh process reports the same key
+                again = _full_run_keys(pid, args.tier)
+                still = []
+                for it, r in bad:
+                    if it[0] in again:
+                        with open(it[2]) as fh:
+                            doc = json.load(fh)
+                        doc.update(needs_full_run=True, tier=args.tier,
+                                   note="not reproducible from the single case in a fresh process; reported again by a second complete run")
+                        with open(it[2], "w") as fh:
+                            json.dump(doc, fh, indent=1)
+                            fh.write("\n")
+                    else:
+                        still.append((it, r))
+                bad = still
             if bad:
                 for (key, desc, path, _), (rc, out) in bad[:5]:
                     print(f"HARNESS-ERROR property={pid} violation not reproducible from a fresh process: {key} rc={rc}\n{out}")
